@@ -113,15 +113,16 @@ pub fn c11_exponents() -> Vec<i32> {
 
 pub fn c11(a: &Args) -> (Stats, String) {
     let mut ws: Vec<u64> = fam::seam_significands().into_iter().filter(|w| *w < (1u128 << 64)).map(|w| w as u64).collect();
-    for w in 0..=1100u64 {
+    // every significand below 2^14 (thorough: 2^18) - complete in w for the short inputs S0 hands over unchanged
+    for w in 0..(if a.thorough { 1u64 << 18 } else { 1u64 << 14 }) {
         ws.push(w);
     }
     for j in 0..40u64 {
         ws.push(u64::MAX - j);
     }
-    if a.thorough {
-        // every 19-digit power-of-ten multiple and dense windows around 10^18 and 2^63
-        for k in 0..32768u64 {
+    {
+        // dense windows at the 19/20-digit edges, 2^63 and 2^64 (quick: 1024 wide, thorough: 32768 wide)
+        for k in 0..(if a.thorough { 32768u64 } else { 1024u64 }) {
             ws.push(1_000_000_000_000_000_000 + k);
             ws.push(9_999_999_999_999_999_999 - k);
             ws.push((1u64 << 63) + k);
